@@ -58,16 +58,16 @@ type Job struct {
 	Parser string `json:"p"`
 	Kind   string `json:"k"` // "parses" | "history" | "interleave" | "matrix" | "translate"
 	Trace  bool   `json:"trace,omitempty"`
-	Feeds  []Feed `json:"feeds,omitempty"`    // parses: each after a fresh Init (object mode: fresh context)
-	Ops    []Op   `json:"ops,omitempty"`      // history: on one parser / context
-	Ctxs   [][]Op `json:"ctxs,omitempty"`     // interleave: one op list per context
-	Seed   uint64 `json:"seed,omitempty"`     // interleave: scheduler seed
-	Policy string `json:"policy,omitempty"`   // interleave: uniform | bursts | after-reduce
-	NS     int    `json:"ns,omitempty"`       // matrix: number of states
-	NA     int    `json:"na,omitempty"`       // matrix: number of symbols
-	Codes  []int  `json:"codes,omitempty"`    // translate probes
-	Budget int    `json:"budget,omitempty"`   // step budget per parse (0: default)
-	Tag    string `json:"tag,omitempty"`      // free, echoed
+	Feeds  []Feed `json:"feeds,omitempty"`  // parses: each after a fresh Init (object mode: fresh context)
+	Ops    []Op   `json:"ops,omitempty"`    // history: on one parser / context
+	Ctxs   [][]Op `json:"ctxs,omitempty"`   // interleave: one op list per context
+	Seed   uint64 `json:"seed,omitempty"`   // interleave: scheduler seed
+	Policy string `json:"policy,omitempty"` // interleave: uniform | bursts | after-reduce
+	NS     int    `json:"ns,omitempty"`     // matrix: number of states
+	NA     int    `json:"na,omitempty"`     // matrix: number of symbols
+	Codes  []int  `json:"codes,omitempty"`  // translate probes
+	Budget int    `json:"budget,omitempty"` // step budget per parse (0: default)
+	Tag    string `json:"tag,omitempty"`    // free, echoed
 }
 
 type Rec struct {
@@ -77,7 +77,7 @@ type Rec struct {
 
 type ParseResult struct {
 	InHash  string      `json:"in,omitempty"` // hash of the semantic values the parser passed INTO the lexer at each call
-	Outcome string      `json:"o"` // accept | syntax | nilret | other | budget | lexpanic
+	Outcome string      `json:"o"`            // accept | syntax | nilret | other | budget | lexpanic
 	Msg     string      `json:"m,omitempty"`
 	Recs    []Rec       `json:"recs,omitempty"`
 	Fetched int         `json:"f"`
